@@ -138,6 +138,17 @@ def check_cds_view(ctx, A, B, spec, cs, ce, g, what="cds", cst="+"):
         return
     ctx.eq(what + ":chunk_relative_codons", got, inside_codons, extra={"chunk": [cs, ce]})
     ctx.eq(what + ":num_chunk_relative_codons", B.num_chunk_relative_codons, len(inside_codons))
+    # the same questions in the other order on a fresh object (chunk-relative view first, chromosome-level answers after it)
+    try:
+        B3 = mkcds(spec, chunk_parent(g, cs, ce, strand=cst))
+        n3 = B3.num_chunk_relative_codons
+        got3 = [tuple(up(p) for p in t) for t in codon_triples(B3.chunk_relative_codon_locations)]
+        ctx.eq(what + ":chunk_view_first:num_chunk_relative_codons", n3, len(inside_codons))
+        ctx.eq(what + ":chunk_view_first:chunk_relative_codons", got3, inside_codons)
+        ctx.eq(what + ":chunk_view_first:num_codons", B3.num_codons, len(model))
+        ctx.eq(what + ":chunk_view_first:chromosome_codons", codon_triples(B3.chromosome_codon_locations), model)
+    except BioCantorException as e:
+        ctx.fail(what + ":chunk_view_first_raises", {"exc": repr(e)[:120], "any_inside": any_inside})
     seqs = [rm.seq_image(g, c, strand).upper() for c in inside_codons]
     B2 = mkcds(spec, chunk_parent(g, cs, ce, strand=cst))
     if any_inside:
